@@ -212,6 +212,17 @@ func sizeRuleNear(r *rand.Rand, m int64) string {
 		b1 = pick(r, boundaryInts)
 	}
 	arg := strconv.FormatInt(b1, 10)
+	if chance(r, 0.04) {
+		// the same integer written differently: explicit sign, leading zeros
+		switch {
+		case b1 >= 0 && chance(r, 0.5):
+			arg = "+" + arg
+		case b1 >= 0:
+			arg = pick(r, []string{"0", "00"}) + arg
+		default:
+			arg = "-0" + arg[1:]
+		}
+	}
 	if rule == "to" || rule == "oto" {
 		b2 := b1 + int64(r.IntN(5)-2)
 		switch r.IntN(6) {
